@@ -60,12 +60,15 @@ func TestC23(t *testing.T) {
 	trials := r.N(3, 120)
 	covered := []string{}
 	for _, name := range []string{"eth", "bsc", "heco", "hsc", "pixie", "bytom", "msc"} {
-		e := es.NewEnv(r.Rand("env/"+name), 3)
-		if err := e.RegisterSideChain(targetChain, utils.ETH_ROUTER, "target", 1, make([]byte, 20), nil); err != nil {
-			r.Inconclusive("register target: " + err.Error())
-			return
-		}
+		var e *es.Env
 		for tr := 0; tr < trials; tr++ {
+			if tr%20 == 0 { // fresh universe every 20 trials keeps the per-case storage dumps small
+				e = es.NewEnv(r.Rand(fmt.Sprintf("env/%s/%d", name, tr)), 3)
+				if err := e.RegisterSideChain(targetChain, utils.ETH_ROUTER, "target", 1, make([]byte, 20), nil); err != nil {
+					r.Inconclusive("register target: " + err.Error())
+					return
+				}
+			}
 			for wi, w := range []uint64{1, 2, 6} {
 				rng := r.Rand(fmt.Sprintf("%s/%d/%d", name, tr, w))
 				runChain(r, rng, e, name, uint64(1000+tr*3+wi), w)
